@@ -38,7 +38,7 @@ def enumerate_all(tier, rng):
 
 
 def make_case(i, rng, tier):
-    inp = common.gen_input(rng, common.target_for(i, rng))
+    inp = common.gen_input(rng, common.target_for(i, rng), huge=True)
     o = model.decode(inp["root"], inp["data"], cc=inp["cc"], enc=inp["enc"])
     if not o.ok:
         raise HarnessError("generator produced a malformed input: %s %s" % (inp["label"], o.problem))
